@@ -74,6 +74,8 @@ def corpus_helpers(tier):
         ([part("l", None, "é".encode("latin-1")), part("u", "fn", b"\r" + b"q" * 30)], b, "latin-1", None, None),
         ([part("u", "fn", b"\n--b" + b"\r\n--", None)], b"--", "utf-8", None, None),
     ]
+    # parts long enough to be delivered in several hundred pieces (more Data events than the default part limit)
+    out.append(([part("big", "big.bin", bytes(range(256)) * 2), part("txt", None, ("line of text " * 30).encode())], b, "utf-8", None, None))
     if tier == "thorough":
         out.append(([part("f", None, ("中" * 5).encode()), part("g", None, ("é\r\n" * 3).encode())], b"'()+_,-./:=?", "utf-8", None, None))
     return out
